@@ -261,6 +261,12 @@ def fromStringF (t : Str) : Except Err (Form × PE) := fromLinesF (splitlines (l
 /-- ParsedException.from_string -/
 def fromString (t : Str) : Except Err PE := (fromStringF t).map (·.2)
 
+/-- a session of `ParsedException.from_string` calls in one process: the code keeps no state between calls and hands
+    out fresh lists and dicts, so each text is parsed on its own, whatever was parsed before and whatever the callers
+    did with the earlier results (the correspondence check parses every text again after spoiling the earlier result,
+    and after histories of other calls) -/
+def parseSession (texts : List Str) : List (Except Err PE) := texts.map fromString
+
 /-! ## the interpreter's text with position-marker ("anchor") lines, and well-formedness -/
 
 /-- lines of one frame as the interpreter prints them: frame line, source line when there is
@@ -484,6 +490,9 @@ structure TbEntry where
   func : Str
   fid : Nat
   look : Look
+  /-- `tb_lasti`, the offset of the entry's instruction: two calls written on one line give entries that agree in
+      file, line and function and differ here -/
+  lasti : Nat := 0
 deriving DecidableEq, Repr
 
 /-- `not filename or (filename.startswith('<') and filename.endswith('>'))` -/
@@ -529,7 +538,9 @@ def deferredRaw (path : Str) (k : Look) : Str := getline (checkcache k.cache k.d
 def stdRaw (path : Str) (k : Look) : Str :=
   getline (checkcache (lazycache k.cache path k.loader) k.disk) path k.disk none
 
-/-- Callpoint.from_tb: co_filename, tb_lineno, co_name, `_DeferredLine(...)`; the frame identity is not consulted -/
+/-- Callpoint.from_tb: co_filename (verbatim, whatever its suffix), tb_lineno, co_name, `_DeferredLine(...)`; the frame
+    identity is not consulted; `tb_lasti` is stored in the Callpoint but no report reads it (the run folding of
+    get_formatted keys on file, line and function: `sameSite`) -/
 def walkB (e : TbEntry) : Callpoint := ⟨e.path, e.lineno, e.func, deferredRaw e.path e.look⟩
 /-- FrameSummary of the traceback module for the same entry -/
 def walkS (e : TbEntry) : Callpoint := ⟨e.path, e.lineno, e.func, stdRaw e.path e.look⟩
